@@ -1,17 +1,52 @@
-"""Replay of the committed known findings (known_findings.json); never written at run time."""
+"""Replay of the committed known findings (known_findings.json); never written at run time.
+
+Each finding carries a script (the same declaration format as everywhere else) and an
+expectation about the REAL code that constitutes the defect:
+  {"kind": "decl",  "index": k, "result": "(err X)"}   the k-th declaration answers that
+  {"kind": "solve", "result": "sat" | "unsat"}           z3 verdict on the emitted assertions
+  {"kind": "calls", ...}                                  a sequence of public solver calls
+On every run the finding is replayed; if the real code still behaves that way the check prints
+`KNOWN-FINDING: property=<id> <what>`; if not, nothing is printed for it."""
+import z3
+
+from harness import pslib, smrun
+
+
+def reproduces(f):
+    real = pslib.Real()
+    res = real.run(f["script"])
+    e = f["expect"]
+    if e["kind"] == "decl":
+        return res[e["index"]] == e["result"]
+    if e["kind"] == "solve":
+        if real.problem is None:
+            return False
+        s = real.initialize()
+        chk = z3.Solver()
+        chk.set("timeout", 20000)
+        chk.add(s._solver.assertions())
+        return str(chk.check()) == e["result"]
+    if e["kind"] == "calls":
+        import processscheduler as ps
+        with smrun.silent():
+            s = ps.SchedulingSolver(problem=real.problem, **e.get("cfg", {}))
+            try:
+                for op in e["ops"]:
+                    getattr(s, op)()
+            except Exception as ex:  # noqa: BLE001
+                return type(ex).__name__ == e.get("raises")
+        return e.get("raises") is None
+    return False
 
 
 def replay_known(prop, rep, data):
     for f in data.get("findings", []):
-        if f.get("property") != prop or f.get("status") != "known":
+        if prop not in f.get("properties", []) or f.get("status") != "known":
             continue
-        # each finding kind has its own replayer, registered here when the finding is recorded
-        fn = REPLAYERS.get(f.get("replayer"))
-        if fn is None:
-            continue
-        still = fn(f)
+        try:
+            still = reproduces(f)
+        except Exception:  # noqa: BLE001
+            still = False
+        rep.count("known_findings_replayed")
         if still:
-            rep.known.append(f["what"])
-
-
-REPLAYERS = {}
+            rep.known.append(f"{f['id']}: {f['what']}")
